@@ -121,7 +121,10 @@ def run_real(R, pio, work: pathlib.Path, script: str, pair_valid: bool, upload: 
         P.read_text, P.mkdir, P.write_text = read_text, mkdir, write_text
         R.parse, R.emit = parse, emit
         sys.stderr = err
-        plat, board = ("atmelavr", "uno") if pair_valid else ("atmelavr", "nano_every")
+        # valid pairs incl. board ids with characters the environment-name sanitiser rewrites
+        VALID = [("atmelavr", "uno"), ("atmelavr", "digispark-tiny"), ("atmelavr", "a-star32U4"), ("atmelmegaavr", "nano_every"), ("atmelavr", "lightblue-bean")]
+        plat, board = VALID[sum(map(ord, script + str(upload) + str(fault))) % len(VALID)] if pair_valid else ("atmelavr", "nano_every")
+        details["pair"] = (plat, board)
         try:
             ret = R.target("COM7", upload=upload, platform=plat, board=board)
             outcome = "returns-cpp"
@@ -209,8 +212,9 @@ def run(ctx: Ctx) -> int:
                 main_cpp, libs, conf = None, None, repr(e)
             if main_cpp != cpp:
                 ctx.fail("target:main.cpp", "src/main.cpp is not the returned source", replay)
-            if conf != ("atmelavr", "uno", "COM7", 1) or libs != NEEDS[s]:
-                ctx.fail("target:config", f"platformio.ini names {conf} libs {libs}; expected ('atmelavr','uno','COM7') libs {NEEDS[s]}", replay)
+            want_pair = det.get("pair", ("atmelavr", "uno"))
+            if conf != (want_pair[0], want_pair[1], "COM7", 1) or libs != NEEDS[s]:
+                ctx.fail("target:config", f"platformio.ini names {conf} libs {libs}; expected {want_pair + ('COM7',)} libs {NEEDS[s]}", replay)
             tail = [e for e in eff if e in ("pio-run", "pio-run-upload")]
             if up and (tail != ["pio-run", "pio-run-upload"] or eff[-2:] != tail):
                 ctx.fail("target:build-upload-order", f"upload=True: expected build then upload last, got {eff}", replay)
